@@ -19,13 +19,11 @@ theorem denotesB_iff (t s : List Char) : denotesB t s = true ↔ Denotes t s := 
   simp [denotesB, Denotes]
 
 /-- names for which the naive `'%s'` embedding is harmless: no quote, no backslash, no line break, no NUL -/
-def plainChar (c : Char) : Bool := !(c = '\'' || c = '\\' || c = '\n' || c = '\r' || c.toNat = 0)
-
 def PlainName (s : List Char) : Prop := ∀ c ∈ s, plainChar c = true
 
-def plainNameB (s : List Char) : Bool := s.all plainChar
+def plainNameB (s : List Char) : Bool := plainStr s
 
 theorem plainNameB_iff (s : List Char) : plainNameB s = true ↔ PlainName s := by
-  simp [plainNameB, PlainName]
+  simp [plainNameB, plainStr, PlainName]
 
 end Spec.Py
